@@ -46,6 +46,10 @@ struct P {
     local: Vec<Vec<(Op, u8)>>,
     remote: Vec<(Op, u8)>,
     link: LinkCfg,
+    /// fault kind `cancel_task`: (local task, await points survived) - that task is dropped in the middle of an
+    /// operation, which then counts as pending (it may take effect at any later point, or never)
+    #[serde(default)]
+    cancel: Option<(u8, u32)>,
 }
 
 #[derive(Clone)]
@@ -212,7 +216,7 @@ impl Scenario for C24Scn {
         "C24"
     }
     fn rule(&self) -> &'static str {
-        "1..2 local tasks issue at / remove / interface over paths {/, /a, /a/b, /a/b/c, /d} x three interface types while a real client connection concurrently calls a method on (path, interface) pairs and introspects paths; results (true/false, InterfaceNotFound, tokens unique per registration, UnknownObject/UnknownInterface, introspected interface sets and mandatory child nodes) must admit a linearization against a set-of-registrations model (brute-force checker, invocation/return stamped with the global scheduler step); thorough also enumerates every sequential history of <= 3 mutating operations followed by a full sweep of lookups; non-trivial = the history removes an interface from a node that has registered descendants, or operates on the root path"
+        "1..2 local tasks issue at / remove / interface over paths {/, /a, /a/b, /a/b/c, /d} x three interface types (in a quarter of the runs one local task is cancelled at a seeded await point: its operation in flight counts as pending - it may take effect at any later point or never) while a real client connection concurrently calls a method on (path, interface) pairs and introspects paths; results (true/false, InterfaceNotFound, tokens unique per registration, UnknownObject/UnknownInterface, introspected interface sets and mandatory child nodes) must admit a linearization against a set-of-registrations model (brute-force checker, invocation/return stamped with the global scheduler step); thorough also enumerates every sequential history of <= 3 mutating operations followed by a full sweep of lookups; non-trivial = the history removes an interface from a node that has registered descendants, or operates on the root path"
     }
     fn runs(&self, tier: Tier) -> u64 {
         match tier {
@@ -262,7 +266,7 @@ impl Scenario for C24Scn {
             }
             let mut sched = SchedCfg::simplest();
             sched.hash_seed = rng.next_u64();
-            return (sched, j(&P { local: vec![local], remote: vec![], link: LinkCfg::default() }));
+            return (sched, j(&P { local: vec![local], remote: vec![], link: LinkCfg::default(), cancel: None }));
         }
         let nl = rng.range(1, 2) as usize;
         let mut local = vec![];
@@ -281,7 +285,8 @@ impl Scenario for C24Scn {
             remote.push((op, rng.below(4) as u8));
         }
         let sched = SchedCfg::generate(rng, &["local", "remote", "obj_server_task"]);
-        (sched, j(&P { local, remote, link: gen_read_cfg(rng) }))
+        let cancel = if !local.is_empty() && rng.chance(1, 4) { Some((rng.usize(local.len()) as u8, rng.below(5) as u32)) } else { None };
+        (sched, j(&P { local, remote, link: gen_read_cfg(rng), cancel }))
     }
 
     fn shrink(&self, body: &Value) -> Vec<Value> {
@@ -302,6 +307,11 @@ impl Scenario for C24Scn {
         if p.link != LinkCfg::default() {
             let mut q = p.clone();
             q.link = LinkCfg::default();
+            out.push(j(&q));
+        }
+        if let Some((t, n)) = p.cancel {
+            let mut q = p.clone();
+            q.cancel = if n > 0 { Some((t, n - 1)) } else { None };
             out.push(j(&q));
         }
         out
@@ -327,7 +337,11 @@ impl Scenario for C24Scn {
         let mut tasks = vec![];
         for (ti, ops) in p.local.iter().enumerate() {
             let (conn, ops, hist, ww) = (server.clone(), ops.clone(), hist.clone(), w.clone());
-            tasks.push(w.spawn(&format!("local-{ti}"), async move {
+            let cancel_at = match p.cancel {
+                Some((t, n)) if t as usize == ti => Some(n),
+                _ => None,
+            };
+            tasks.push(w.spawn(&format!("local-{ti}"), cancel_after(w, cancel_at, async move {
                 for (k, (op, gap)) in ops.into_iter().enumerate() {
                     for _ in 0..gap {
                         ww.yield_now().await;
@@ -343,7 +357,7 @@ impl Scenario for C24Scn {
                     h[idx].ret = ww.steps();
                     h[idx].result = Some(r);
                 }
-            }));
+            })));
         }
         {
             let (conn, ops, hist, ww) = (client.clone(), p.remote.clone(), hist.clone(), w.clone());
@@ -375,7 +389,11 @@ impl Scenario for C24Scn {
         let root_op = ops_flat.iter().any(|o| matches!(o, Op::At(0, _) | Op::Remove(0, _)));
         let remove_parent = ops_flat.iter().any(|o| matches!(o, Op::Remove(1, _) | Op::Remove(2, _)))
             && ops_flat.iter().any(|o| matches!(o, Op::At(2, _) | Op::At(3, _)));
-        if let Some(x) = h.iter().find(|x| x.result.is_none()) {
+        let cancelled_who = p.cancel.map(|(t, _)| format!("local-{t}"));
+        if h.iter().any(|x| x.result.is_none() && Some(&x.who) == cancelled_who.as_ref()) {
+            w.count("probe.operation_cancelled_midway");
+        }
+        if let Some(x) = h.iter().find(|x| x.result.is_none() && Some(&x.who) != cancelled_who.as_ref()) {
             return Verdict::fail("hang", "operation-never-returned", format!("{} {:?} never returned", x.who, x.op.0));
         }
         if let Some(x) = h.iter().find(|x| matches!(x.result, Some(Ret::Failed(_)))) {
@@ -383,7 +401,7 @@ impl Scenario for C24Scn {
         }
         if !linearizable(&Model { regs: BTreeMap::new() }, &h) {
             // name the operation kinds involved for the fingerprint
-            let seq: Vec<String> = h.iter().map(|x| format!("{}:{:?}={:?}", x.who, x.op.0, x.result.as_ref().unwrap())).collect();
+            let seq: Vec<String> = h.iter().map(|x| format!("{}:{:?}={:?}", x.who, x.op.0, x.result)).collect();
             let kinds = if ops_flat.iter().any(|o| matches!(o, Op::Remove(..))) { "with-remove" } else { "no-remove" };
             return Verdict::fail("linearizability", kinds, format!("no linearization of this history against the registration model: {seq:?}"));
         }
